@@ -131,14 +131,18 @@ PROPS_RAW = {
                      J("rcu.window", "wl_rcu", 40000, 1000000, mode="window", elem=0),
                      # M = std::recursive_mutex (documented as supported) with an element
                      # constructor that pushes to the same list from inside emplace_*
-                     J("rcu.reenter", "wl_rcu_reent", 30000, 800000)]},
+                     J("rcu.reenter", "wl_rcu_reent", 30000, 800000),
+                     # failing allocations: what completed normally must still add up
+                     J("rcu.oom", "wl_rcu", 40000, 1000000, mode="std", elem=0, oom=1, alloc=0)]},
     "C13": {"jobs": [J("rcu.c13.tracked", "wl_rcu", 60000, 1500000, mode="c13", elem=0),
                      J("rcu.c13.string", "wl_rcu", 60000, 1500000, mode="c13", elem=1),
                      J("rcu.c13.blob", "wl_rcu", 40000, 1000000, mode="c13", elem=2),
                      # fault: the allocator handed to the list fails (std::bad_alloc) at arbitrary
                      # allocations — nodes, zombie records, handle registrations
                      J("rcu.c13.oom", "wl_rcu", 40000, 1000000, mode="c13", elem=0, oom=1, alloc=0),
-                     J("rcu.c13.oom.string", "wl_rcu", 20000, 500000, mode="c13", elem=1, oom=1, alloc=0)]},
+                     J("rcu.c13.oom.string", "wl_rcu", 20000, 500000, mode="c13", elem=1, oom=1, alloc=0),
+                     # recursive mutex + element constructors that push to the same list
+                     J("rcu.reenter", "wl_rcu_reent", 30000, 800000)]},
     "C14": {"jobs": [J("lr.freeze", "wl_lr", 60000, 1500000, mode="freeze"),
                      J("lr.overlap", "wl_lr", 20000, 500000, mode="overlap"),
                      # writers must complete once handles are released: mixed readers (all
@@ -156,7 +160,9 @@ PROPS_RAW = {
     "C18": {"jobs": [J("dobj", "wl_dobj", 100000, 2500000),
                      J("dobj.hb", "wl_dobj", 30000, 800000, races=1)]},
     "C19": {"jobs": [J("trip.explicit", "wl_trip", 200000, 5000000, mode="explicit"),
-                     J("trip.static", "wl_trip", 6000, 150000, mode="static", fork_each=1)]},
+                     J("trip.static", "wl_trip", 6000, 150000, mode="static", fork_each=1),
+                     # the declared line's trigger is created during static initialisation
+                     J("trip.static.early", "wl_trip_early", 2000, 50000, mode="static", fork_each=1)]},
     "C20": {"jobs": [J("lr.throw", "wl_lr", 150000, 4000000, mode="throw")] +
             wrappers("throw", ["guarded", "guarded_opt", "ordered_guarded", "atomic_guarded",
                                "shared_guarded"], 50000, 1200000) +
